@@ -185,6 +185,24 @@ class SArr:
     def __rtruediv__(self, o):
         return self._ew(o, lambda x, y: _div(y, x))
 
+    def _inplace(self, r):
+        if r.shape != self.shape:
+            raise ValueError('non-broadcastable output operand')
+        self.flat[:] = r.flat
+        return self
+
+    def __iadd__(self, o):
+        return self._inplace(self + o)
+
+    def __isub__(self, o):
+        return self._inplace(self - o)
+
+    def __imul__(self, o):
+        return self._inplace(self * o)
+
+    def __itruediv__(self, o):
+        return self._inplace(self / o)
+
     def __pow__(self, e):
         return SArr(self.shape, [_norm(x ** e) for x in self.flat])
 
@@ -645,6 +663,9 @@ class _Linalg:
     det = staticmethod(det)
     norm = staticmethod(norm)
     qr = staticmethod(qr)
+
+    def __getattr__(self, name):
+        raise OutsideSubset('numpy.linalg.%s is not modelled' % name)
 
 
 class _Random:
